@@ -18,6 +18,9 @@ func genUDPCase(r *Rng, prop string) udpCaseSpec {
 	avail := ensureLocalAddrs()
 	var kinds []int
 	for i, k := range targetKinds {
+		if i >= 16 {
+			continue // malformed forms are chosen explicitly below
+		}
 		if k.ip == "" || net.ParseIP(k.ip).IsLoopback() || avail[k.ip] {
 			kinds = append(kinds, i)
 		}
@@ -100,6 +103,12 @@ func genUDPCase(r *Rng, prop string) udpCaseSpec {
 			op.C = (op.C + 1 + r.Intn(3)) % 4
 		case c < 32:
 			op.AKind, op.Replies = 9, nil
+			if prop == "C18" || r.Chance(40) {
+				op.AKind = []int{9, 16, 17, 18, 19}[r.Intn(5)]
+				if op.AKind == 17 || op.AKind == 18 {
+					op.PLen = 0 // nothing may complete the truncated address
+				}
+			}
 		}
 		op.Key = fmt.Sprintf("%d/%d", op.C, op.S)
 		cs.Ops = append(cs.Ops, op)
@@ -226,7 +235,7 @@ func udpMonitors(ctx *Ctx, prop string, cs *udpCaseSpec, obs []udpOpObs, shutdow
 		}
 		a := live[op.Client]
 		okKey, _ := inCfg(op.C, op.S)
-		valid := op.Kind == "honest" && op.AKind != 9
+		valid := op.Kind == "honest" && !malformedKind(op.AKind)
 		var shouldForward bool
 		if a != nil {
 			shouldForward = valid && a.c == op.C && a.s == op.S
